@@ -635,6 +635,22 @@ def driveIU (args : List String) : String :=
     IUX.runScript (argVal mode "model" == "old") (if o.isEmpty then [] else o.splitOn ";")
   | _ => "bad-op"
 
+
+def bytesToNats (b : Bytes) : List Nat := b.map (·.toNat)
+def natsToBytes (l : List Nat) : Bytes := l.map (fun n => UInt8.ofNat n)
+
+def driveC03 (args : List String) : String :=
+  match args with
+  | ["b64enc", h] => match hexArg (if h == "-" then "" else h) with
+    | some b => showBytes (natsToBytes (Metadata.b64enc (bytesToNats b)))
+    | none => "bad-op"
+  | ["b64dec", h] => match hexArg (if h == "-" then "" else h) with
+    | some b => match Metadata.b64dec (bytesToNats b) with
+      | some v => showBytes (natsToBytes v)
+      | none => "error"
+    | none => "bad-op"
+  | _ => "bad-op"
+
 def driveIS (args : List String) : String :=
   match args with
   | [kind, ops] =>
@@ -657,6 +673,7 @@ def dispatch (line : String) : String :=
   | "C10" :: rest => driveC10 rest
   | "C18" :: rest => driveC18 rest
   | "IS" :: rest => driveIS rest
+  | "C03" :: rest => driveC03 rest
   | "IU" :: rest => driveIU rest
   | _ => "bad-op"
 
